@@ -238,8 +238,10 @@ def explain(tracefile, rej):
         e = json.loads(rej["line"])
     except Exception:
         return ""
-    if e.get("e") in ("Crash", "Hang", "Leak"):
-        return "the loader process died (%s) during this behaviour" % e.get("e")
+    if e.get("e") in ("Crash", "Hang"):
+        return "the loader process died (%s%s) during this behaviour" % (e.get("e"), " signal %s" % e["sig"] if "sig" in e else "")
+    if e.get("e") == "Leak":
+        return "LeakSanitizer reports memory still allocated and unreachable after this behaviour released everything"
     if e.get("e") == "load" and e.get("ret") == 0:
         evs = [json.loads(x) for x in open(tracefile, errors="replace") if x.startswith('{"e":"load"')]
         for o in evs:
@@ -329,7 +331,8 @@ def run(ctx, replay=None):
     ctx.build_lib()
     exe = ctx.cc("hwv_snapshot.c", "hwv_snapshot")
     os.makedirs(ctx.path("scr"), exist_ok=True)
-    env = {"HWV_WATCHDOG": "60"}
+    # a leak (LeakSanitizer, consulted after every behaviour) is a memory error: logged as a Leak event, which no action accepts
+    env = {"HWV_WATCHDOG": "60", "HWV_LEAKCHECK": "1"}
 
     def replay_fn(text):
         """one behaviour alone in a fresh recorder with full projections; the rejection, if any, comes back with the
@@ -417,6 +420,8 @@ def run(ctx, replay=None):
     with cf.ThreadPoolExecutor(max_workers=max(1, vlib.NCPU // 2)) as ex:
         confirmed = dict(zip(todo, ex.map(replay_fn, todo)))
     ctx.handle_rejections(rejs, behs, lambda text: confirmed[text] if text in confirmed else replay_fn(text))
+    if not os.environ.get("HWV_KEEP"):          # 170k hard links and directories: rm is much faster than shutil.rmtree
+        vlib.run(["rm", "-rf", ctx.path("corpus"), ctx.path("scr")], timeout=900)
     return ctx.finish(
         rule="tuples (snapshot, fault set, component selection, filter preset, flag words) enumerated by TLC from MC_Snapshot.tla over the path "
              "tables of every bundled Linux snapshot, CPUID dump and combined snapshot: no removal under every configuration; striped single "
